@@ -3,8 +3,12 @@
 Exploration is depth-first *by replay*: a path is a list of branch decisions; to explore another
 path the harness is re-run from the start with a different decision prefix.  No state snapshots.
 """
+import os
+import pickle
 import re
+import sys
 import time
+import traceback
 import z3
 
 import mirparse as P
@@ -173,6 +177,11 @@ class Engine:
         self.depth_limit = 400
         self.check_tags = {}
         self._describe = None
+        self._const_cache = {}
+        self.fork_mode = False
+        self.is_child = False
+        self._result_fd = None
+        self.deadline = None
         self._memo = {}
         self._capture = None
         self._pure_cache = {}
@@ -267,12 +276,71 @@ class Engine:
         if not feas:
             self.stats.infeasible += 1
             raise PathEnd()
-        base = self.decisions[:self.pos]
-        for k in reversed(feas[1:]):
-            self.pending.append(base + [k])
+        if len(feas) > 1 and self.fork_mode and self.collect is None:
+            if self.deadline is not None and time.time() > self.deadline:
+                raise Unsupported('time budget exhausted inside a unit of work (bound not covered)')
+            for k in feas[1:]:
+                if self._spawn():
+                    # child process: continues this very execution on arm k (no re-execution of the prefix)
+                    self.decisions.append(k); self.pos += 1
+                    self.add(conds[k])
+                    return k
+        else:
+            base = self.decisions[:self.pos]
+            for k in reversed(feas[1:]):
+                self.pending.append(base + [k])
         self.decisions.append(feas[0]); self.pos += 1
         self.add(conds[feas[0]])
         return feas[0]
+
+    def _spawn(self):
+        """fork-based DFS: the child explores the alternative arm from the current state; the parent waits
+        for it (so exploration stays sequential per worker) and merges its results.  -> True in the child"""
+        r, w = os.pipe()
+        try:
+            sys.stdout.flush(); sys.stderr.flush()
+        except Exception:
+            pass
+        pid = os.fork()
+        if pid == 0:
+            os.close(r)
+            self._result_fd = w
+            self.is_child = True
+            self.stats = Stats(); self.violations = []; self.inconclusive = []
+            self.stats.paths = 1
+            return True
+        os.close(w)
+        chunks = []
+        while True:
+            b = os.read(r, 1 << 16)
+            if not b:
+                break
+            chunks.append(b)
+        os.close(r)
+        _, status = os.waitpid(pid, 0)
+        data = b''.join(chunks)
+        if status != 0 or not data:
+            self.inconclusive.append('child explorer process failed (wait status %d)' % status)
+        else:
+            res = pickle.loads(data)
+            self.stats.merge(res['stats'])
+            self.violations.extend(res['violations'])
+            self.inconclusive.extend(res['inconclusive'])
+        return False
+
+    def _child_exit(self, error=None):
+        try:
+            for v in self.violations:
+                v.model = None
+            if error:
+                self.inconclusive.append(error)
+            data = pickle.dumps({'stats': self.stats, 'violations': self.violations, 'inconclusive': self.inconclusive})
+            off = 0
+            while off < len(data):
+                off += os.write(self._result_fd, data[off:off + (1 << 16)])
+            os.close(self._result_fd)
+        finally:
+            os._exit(0)
 
     def truth(self, b):
         if b is True or b is False:
@@ -338,7 +406,7 @@ class Engine:
                 self.solver.push(); self.solver.add(neg); self._check(); m = self.solver.model(); self.solver.pop()
             else:
                 self._check(); m = self.solver.model()
-            v = Violation('assert', label, m, self.decisions[:self.pos])
+            v = Violation('assert', label, None, self.decisions[:self.pos])
             describe = describe or self._describe
             if describe is not None:
                 v.data = describe(m)
@@ -381,16 +449,23 @@ class Engine:
         self.collect = None
         self.stats.paths += 1
         try:
-            harness(self)
-        except PathEnd:
-            pass
-        except Panic as e:
-            if self._check() == z3.sat:
-                m = self.solver.model()
-                v = Violation(e.kind, str(e), m, self.decisions[:self.pos], where=[f.name for f in self.callstack[-4:]])
-                if describe is not None:
-                    v.data = describe(m)
-                self.violations.append(v)
+            try:
+                harness(self)
+            except PathEnd:
+                pass
+            except Panic as e:
+                if self._check() == z3.sat:
+                    m = self.solver.model()
+                    v = Violation(e.kind, str(e), None, self.decisions[:self.pos], where=[f.name for f in self.callstack[-4:]])
+                    if describe is not None:
+                        v.data = describe(m)
+                    self.violations.append(v)
+        except BaseException as ex:
+            if self.is_child:
+                self._child_exit('%s: %s | %s' % (type(ex).__name__, ex, traceback.format_exc()[-1200:]))
+            raise
+        if self.is_child:
+            self._child_exit()
 
     def frontier(self, harness, want, describe=None):
         """expand breadth-first until at least `want` pending prefixes exist (for splitting work).
@@ -803,8 +878,8 @@ class Engine:
             ra = a.interval(); rb = b.interval()
             rng = (min(ra[0], rb[0]), max(ra[1], rb[1])) if ra is not None and rb is not None else None
             return Int(z3.If(c, a.z(), b.z()), a.bits, a.sg, None, rng)
-        if is_bool(a) and is_bool(b):
-            return z3.If(c, b_z(a), b_z(b))
+        # boolean flags are not merged: a later branch on the merged flag forks anyway, and merging only
+        # postpones (and can multiply) that fork
         return None
 
     def set_discr(self, f, loc, place, idx):
@@ -909,6 +984,15 @@ class Engine:
     _FLOATLIT = re.compile(r'(-?[\d.]+(?:[eE][-+]?\d+)?|[-+]?inf|NaN)(?:_)?f64$')
 
     def const(self, f, c):
+        r = self._const_cache.get(c)
+        if r is not None:
+            return r
+        r = self._const(f, c)
+        if isinstance(r, (Int, bool, Float)) and 'promoted' not in c:
+            self._const_cache[c] = r
+        return r
+
+    def _const(self, f, c):
         c = c.strip()
         if c == 'true':
             return True
@@ -1472,7 +1556,18 @@ def apply_subst(callee, sub):
     return _WORD.sub(rep, callee)
 
 
+_impl_subst_cache = {}
+
+
 def impl_subst(f, callee, outer):
+    key = (f.name, callee)
+    r = _impl_subst_cache.get(key)
+    if r is None:
+        r = _impl_subst_cache[key] = _impl_subst(f, callee, outer)
+    return r
+
+
+def _impl_subst(f, callee, outer):
     """bind impl-level type parameters by unifying the impl's self type text with the callee's"""
     info = f.debug.get('__impl__')
     stext = info[2] or ''
